@@ -177,6 +177,9 @@ class OpacityCache(Singleton):
         """
         GlobalCache()['xsec_interpolation'] = interpolation_mode
         self.clear_cache()
+        # k-table loaders read the same setting when they are discovered
+        from .ktablecache import KTableCache
+        KTableCache().clear_cache()
     
     
 
